@@ -96,6 +96,8 @@ THOROUGH_PROGRAMS = {
     'pause-resume-sym': dict(routines=[dict(seed=1, steps=['log', 'pause', 'log', 'resume', 'log']),
                                        dict(seed=2, steps=['log', 'send', 'log', 'log'])], sym=2),
 }
+# thorough tier: arbitrary wake-up latency also for these discrete-feature programs (all of them did not finish in 40 min)
+JITTER_THOROUGH = ('stop-other', 'sched-function', 'bool-yield', 'restart')
 T0, T2 = 2.0, 0.5
 # deltas that are not symbolic in a program (spec['sym'] leading deltas per routine are symbolic)
 CONCRETE_DELTAS = [[0.5, 0.25, 1.0, 0.5, 0.75, 0.25], [0.75, 0.5, 0.25, 1.0, 0.5, 0.5], [0.25, 1.0, 0.5, 0.25, 0.75, 1.0]]
@@ -706,8 +708,8 @@ def main(tier, seed):
         sm = r.pop('summaries', [])
         chk.add('nrt', r)
         j = dict(r['job'], mode='rt', summaries=sm,
-                 jitter=(tier != 'quick') or progs[r['job']['prog']].get('sym', 1) > 1
-                 or bool(progs[r['job']['prog']].get('jitter')))
+                 jitter=progs[r['job']['prog']].get('sym', 1) > 1 or bool(progs[r['job']['prog']].get('jitter'))
+                 or (tier != 'quick' and r['job']['prog'] in JITTER_THOROUGH))
         if sm and not r.get('violations') and not r.get('truncated'):
             rt_jobs.append(j)
     for r in run_jobs('vf.props.c10', 'job_rt', rt_jobs, 'rt'):
